@@ -741,43 +741,7 @@ def parseList (cfg : MdCfg) (pm : ParseMethod) (mt : RxMatch) (st : BlockState) 
     return (endPos, { st with tokens := listInsert st.tokens index token })
   return (some st.cursor, st.appendToken token)
 
-/-! ### dispatch -/
-
-/-- `Parser.parse_method(m, state)`: `self._methods[m.lastgroup](m, state)`.  `_methods` has one entry per key of
-`SPECIFICATION` (core configuration); any other rule name raises KeyError.  The argument is the nesting budget:
-handlers receive the instance with the smaller budget for their own calls of `parse_method` / `parse`. -/
-def parseMethod (cfg : MdCfg) : Nat → ParseMethod
-  | 0 => fun _ _ _ => .error .depthExceeded
-  | fuel + 1 => fun name mt st =>
-    let pm := parseMethod cfg fuel
-    match name with
-    | "blank_line" => parseBlankLine mt st
-    | "atx_heading" => parseAtxHeading cfg mt st
-    | "setex_heading" => parseSetexHeading cfg pm mt st
-    | "fenced_code" => parseFencedCode cfg mt st
-    | "indent_code" => parseIndentCode cfg mt st
-    | "thematic_break" => parseThematicBreak mt st
-    | "ref_link" => parseRefLink cfg mt st
-    | "block_quote" => parseBlockQuote cfg pm mt st
-    | "list" => parseList cfg pm mt st
-    | "block_html" => parseRawHtml cfg mt st              -- `parse_block_html`
-    | "raw_html" => parseRawHtml cfg mt st
-    | _ => .error .keyError
-
-/-- nesting budget for a source: every nested activation of a handler (child parse or break rule) owns at least
-one character of the (tab-expanded) source, and states nest at most `max_nested_level + 1` deep -/
-def nestFuel (cfg : MdCfg) (src : Str) : Nat := 4 * src.length + cfg.maxNested + 16
-
-/-- `BlockParser.parse` on an already normalised source, fresh root state: tokens (before the inline pass,
-i.e. with `text` fields) and the final `env`. -/
-def blockParse (cfg : MdCfg) (src : Str) : Except PyErr (List Json × Json) := do
-  let st := BlockState.root src
-  let st ← parse cfg (parseMethod cfg (nestFuel cfg src)) st none
-  pure (st.tokens, st.env)
-
 end Blk
-
-def blockParse (cfg : MdCfg) (src : Str) : Except PyErr (List Json × Json) := Blk.blockParse cfg src
 
 end Model
 end Mistune
